@@ -142,6 +142,17 @@ func Section(label string, f func()) {
 	f()
 }
 
+var sectionSetups = map[string]func(){}
+
+// SectionSetup is Section with a preparation step: setup puts the shared state into the situation in which
+// f has its full effect (a table to delete exists, a table to create does not). It runs, unrecorded, before
+// f - and natively before every concurrent round of NoRace.
+func SectionSetup(label string, setup, f func()) {
+	sectionSetups[label] = setup
+	setup()
+	Section(label, f)
+}
+
 // NoRace states that sections a and b may run concurrently without a data race. Under the engine this is
 // the lock-set obligation "every pair of conflicting accesses holds a common mutex"; natively the two
 // sections are run concurrently (the replay is built with -race, so the race detector is the judge).
@@ -151,6 +162,11 @@ func NoRace(a, b, id string) {
 		return
 	}
 	for round := 0; round < 50; round++ {
+		for _, l := range []string{a, b} {
+			if setup := sectionSetups[l]; setup != nil {
+				setup()
+			}
+		}
 		Par(func() { defer func() { recover() }(); fa() }, func() { defer func() { recover() }(); fb() })
 	}
 }
